@@ -342,6 +342,68 @@ def fixedBounds (signed : Bool) (scale : Int) (nbits : Nat) : RF × RF :=
   if signed then (⟨false, scale, bitmask (nbits - 1)⟩, ⟨true, scale, 2 ^ (nbits - 1)⟩)
   else (⟨false, scale, bitmask nbits⟩, ⟨false, 0, 0⟩)
 
+structure ExpParams where
+  nbits : Nat
+  eoff : Int
+  rm : RM
+  ov : OV
+  infValue : Option FV
+deriving Repr, Inhabited
+
+/-- `exponential._exponent_bounds` -/
+def ExpParams.emax (c : ExpParams) : Int := (bitmask (c.nbits - 1) : Int) + c.eoff
+def ExpParams.emin (c : ExpParams) : Int := 1 - (bitmask (c.nbits - 1) : Int) + c.eoff - 1
+
+/-- `ExpContext._overflow_to_infinity` (differs from the float families: round-to-odd stays finite) -/
+def expOverflowToInfinity (rm : RM) (s : Bool) : Bool :=
+  match (rm.toDirection s).2 with
+  | .rtz => false | .raz => true | .rte => true | .rto => false
+
+/-- `ExpContext._underflow_to_zero` -/
+def expUnderflowToZero (rm : RM) (s : Bool) : Bool :=
+  match (rm.toDirection s).2 with
+  | .rtz => true | .raz => false | .rte => true | .rto => false
+
+/-- `ExpContext._round_at`: round with one digit through `MPFloatContext(1, rm)`, then map what is not a
+power of two in range (zero, negatives, infinities, out-of-range) as the code does. -/
+def expRoundAt (c : ExpParams) (v : FV) (n : Option Int) (exact : Bool) : Except Err Res :=
+  let mpRes : Except Err Res :=
+    match floatSpecial {} v with
+    | some res => res
+    | none => match v with
+      | .fin x =>
+        if x.c = 0 then .ok ⟨.fin ⟨x.s, 0, 0⟩, {}⟩
+        else match x.round (some 1) n c.rm (some 0) 0 exact with
+          | .error e => .error e
+          | .ok (xr, fl) => .ok ⟨.fin xr, fl⟩
+      | _ => .error .assertion
+  match mpRes with
+  | .error e => .error e
+  | .ok r =>
+    match r.v with
+    | .nan _ => .ok ⟨.nan false, {}⟩
+    | .inf _ => (match c.infValue with | none => .ok ⟨.nan false, {}⟩ | some iv => .ok ⟨iv, {}⟩)
+    | .fin y =>
+      if y.c = 0 || y.s then .ok ⟨.nan false, {}⟩
+      else
+        let minval : Res := ⟨.fin ⟨false, c.emin, 1⟩, {}⟩
+        let maxval : Res := ⟨.fin ⟨false, c.emax, 1⟩, {}⟩
+        if y.e < c.emin then
+          if exact then .error .valueError
+          else match c.ov with
+            | .overflow => if expUnderflowToZero c.rm y.s then .ok (setOvf ⟨.nan false, {}⟩) else .ok (setOvf minval)
+            | .saturate => .ok (setOvf minval)
+            | .assert => .error .valueError
+            | .wrap => .error .assertion
+        else if y.e > c.emax then
+          if exact then .error .valueError
+          else match c.ov with
+            | .overflow => if expOverflowToInfinity c.rm y.s then .ok (setOvf ⟨.nan false, {}⟩) else .ok (setOvf maxval)
+            | .saturate => .ok (setOvf maxval)
+            | .assert => .error .valueError
+            | .wrap => .error .assertion
+        else .ok ⟨.fin y, r.fl⟩
+
 inductive Ctx
   | real
   | mp (p : Nat) (rm : RM) (k : Option Nat) (o : Opts)
@@ -350,6 +412,7 @@ inductive Ctx
   | efloat (c : EFloatParams)
   | mpfix (nmin : Int) (rm : RM) (k : Option Nat) (negZero : Bool) (o : Opts)
   | mpbfix (c : MPBFixParams)
+  | exp (c : ExpParams)
 deriving Repr, Inhabited
 
 /-- `FixedContext(signed, scale, nbits, rm, ov, k, nan_value, inf_value)` as its `MPBFixedContext` base. -/
@@ -375,6 +438,7 @@ def Ctx.roundParams : Ctx → Option Nat × Option Int
   | .efloat c => let m := c.mpb; match m.k with | none => (none, none) | some k => (some (m.p + k), some (m.nmin - k))
   | .mpfix nmin _ k _ _ => (none, widenN nmin k)
   | .mpbfix c => (none, widenN c.nmin c.k)
+  | .exp _ => (some 1, none)
 
 /-- `_round_at` on a prepared operand. -/
 def Ctx.roundAtCore (C : Ctx) (v : FV) (n : Option Int) (exact : Bool) (r : Nat) : Except Err Res :=
@@ -422,6 +486,7 @@ def Ctx.roundAtCore (C : Ctx) (v : FV) (n : Option Int) (exact : Bool) (r : Nat)
             else .ok ⟨.fin xr, fl⟩
       | _ => .error .assertion
   | .mpbfix c => mpbfixRoundAt c v n exact r
+  | .exp c => expRoundAt c v n exact
 
 /-- `Context.round(x, exact=…)` with the stochastic draw `r` explicit. -/
 def Ctx.round (C : Ctx) (x : Operand) (exact : Bool := false) (r : Nat := 0) : Except Err Res :=
